@@ -10,149 +10,185 @@ COMMON_NOTE = ("Trusted: Coq 8.16.1 kernel (vm_compute only); Flocq's definition
                "orchestration and generators. The tie between the Gallina model and the Rust code is differential testing on the "
                "cases listed in the evidence file, not a proof. ")
 
-CLAIMED = {
-    "C01": dict(
-        text="Theorems about the Gallina VM model (Props/C01.v); the full interpreter model (lexer, parser, codegen, linker, VM) is run "
-             "against the real crate on generated programs of the well-defined fragment, and both are compared with the reference "
-             "statement-by-statement semantics Spec/Sem.v (continuations and a frame list, no addresses), which is the oracle that "
-             "produces a concrete failing program when they differ.",
-        note="The simulation theorem VM-model ~ Sem is not proved yet: the listed theorems are local (ON dispatch); agreement of model, "
-             "implementation and reference semantics on whole programs is checked per generated program. Sem shares value-level "
-             "operations with the model.",
-        technique="Coq model + theorems; model/implementation/reference-semantics differential check"),
-    "C03": dict(
-        text="The scanner model has no fuel and no push-back loop (structural recursion), so it is total by construction; every panic "
-             "and divergence site of the Rust code is represented as Panic/Hang in the model. The check runs all strings over the "
-             "25-symbol lexical alphabet up to length 3 (4 thorough), token soup and mutated lines through lex/relist/ast on both "
-             "sides under a watchdog.",
-        note="Session-level totality (protocol automaton) is exercised by the other properties' session runs; the unbounded "
-             "theorems for parser/VM totality are not yet stated.",
-        technique="Coq model (structural recursion, explicit Panic/Hang outcomes) + exhaustive short-string differential check"),
-    "C04": dict(
-        text="Theorems about the dirty flag of the runtime model (Props/C04.v); the model is run against the crate on random edit "
-             "histories; a relational monitor on the implementation re-types the final listing into a fresh interpreter and "
-             "compares RUN / RUN n, and checks that CONT / RETURN / NEXT / FN calls are refused after every kind of edit.",
-        note="The invariant 'dirty = false -> compiled = compile(listing)' over all call histories is not yet proved as one theorem.",
-        technique="Coq model + theorems; history-based differential and relational (fresh interpreter) check"),
-    "C07": dict(
-        text="Theorems about the string functions of the model (Props/C07.v); every function is compared model vs implementation over "
-             "cartesian products of boundary strings, positions and patterns (incl. multi-byte), and an independent character-level "
-             "specification written from the manual decides each answer.",
-        note="STR$/VAL text is compared model-vs-implementation only.",
-        technique="Coq model + theorems; exhaustive boundary-grid differential check with a spec monitor"),
-    "C08": dict(
-        text="Universally quantified Coq theorems (Props/C08.v) state that every Integer operation of the model returns the exact "
-             "mathematical result or OVERFLOW / DIVISION BY ZERO, for all operands (lia/nia, induction for ^). The model is tied "
-             "to operation.rs / function.rs / val.rs by differential execution in both build profiles: all 65536 values for unary "
-             "operations, a 64x64 boundary grid and random pairs for binary ones, floats around the conversion limits.",
-        note="The float->Integer statement is about the model's floor/range test on Flocq's representation.",
-        technique="Coq proof over Z (lia/nia, induction) + model/implementation differential check"),
-    "C09": dict(
-        text="Theorem that appending a fragment appends its constants to the data segment (Props/C09.v); programs with DATA lines placed "
-             "anywhere, RESTORE / RESTORE n sequences and edit histories are run on model and implementation and compared with the "
-             "reference semantics, whose DATA list is simply the constants in source order.",
-        note="The theorem 'data (compile p) = flat_map data_of_line p' for whole programs is not yet proved.",
-        technique="Coq model + theorems; model/implementation/reference-semantics differential check"),
-    "C10": dict(
-        text="Theorem that mangled parameter names contain a '.', which no source identifier can (Props/C10.v); programs with nested "
-             "calls, same-named globals, DEFtype settings, arity errors and recursion are run on model and implementation and "
-             "compared with the reference semantics, which binds parameters in a local environment typed by their own names.",
-        note="The call/return stack protocol theorem (C10_call) is not yet proved.",
-        technique="Coq model + theorems; model/implementation/reference-semantics differential check"),
-    "C12": dict(
-        text="Theorems (Props/C12.v): CLEAR resets every field a run can depend on to its start-up value and changes nothing else; NEW "
-             "additionally empties the listing, clears trace mode and forces recompilation. Sessions with dirtying prefixes are run "
-             "on model and implementation; a relational monitor compares RUN after the prefix with RUN in a fresh interpreter.",
-        note="RND reseeding uses OS entropy (an oracle in the model); compared programs do not call RND before seeding it.",
-        technique="Coq proof (field-by-field reset) + history-based differential and relational check"),
-    "C13": dict(
-        text="Theorem that interrupt() saves exactly what CONT restores (Props/C13.v); the same sessions are run under seven quanta, "
-             "interrupted after every k-th execute(1) call with optional inspection and CONT, and with STOP inserted at statement "
-             "boundaries; outputs must equal the uninterrupted run modulo the ?BREAK block and its forced line break.",
-        note="The slicing theorem execute(n+m) = execute(n); execute(m) is not yet proved.",
-        technique="Coq model + theorems; schedule-enumerating differential and relational check"),
+def entry(proved, checked, note, technique):
+    return dict(text="Proved in Coq about the model, for all inputs: " + proved + " Checked on every run: " + checked,
+                note=note, technique=technique)
 
-    "C02": dict(
-        text="Theorems (Props/C02.v): the parser's precedence tables are the manual's 13 levels; relational operators yield exactly 0 or -1. "
-             "Random and exhaustive (all operator pairs, unary/binary pairs) expression trees are rendered with the parentheses the manual's "
-             "table requires and must parse back to the tree; every operator x operand-type x boundary-value combination is compared "
-             "model vs implementation and against the documented result type; typed assignment and literal typing are checked against "
-             "the manual's rules.",
-        note="The round-trip theorem parse(render e) = e is proved for a prototype grammar only (DESIGN.md); values of ^ with a non-Integer "
-             "operand are compared by type (powf/powi are oracles).",
-        technique="Coq model + theorems; tree-rendering spec monitor and type-matrix differential check"),
-    "C05": dict(
-        text="Theorem that a string literal's payload is copied from the source character for character (Props/C05.v); all short strings over "
-             "the lexical alphabet, token-spelling pairs, soup and program lines are listed twice (fixed point), compared for line number and "
-             "AST (original vs listed text), and programs are saved and loaded through Listing::load_str.",
-        note="One known finding is listed (text glued to REM). The unbounded theorem lex(print ts) = ts is not yet proved.",
-        technique="Coq model + theorems; exhaustive short-string relational check on the implementation"),
-    "C06": dict(
-        text="Theorems (Props/C06.v): an absent key reads as the zero of its own type; conversion on store yields a value of exactly the "
-             "variable's type or an error. Random sequences of assignments, reads, DIM/ERASE, DEFtype, SWAP and CLEAR over aliasing-prone "
-             "names are run on model and implementation and every printed value and error is predicted by a typed total-map reference.",
-        note="Key-construction injectivity (array keys vs scalar keys) is checked by the sequences, not yet proved.",
-        technique="Coq model + theorems; sequence-based differential check with a reference store"),
-    "C11": dict(
-        text="Theorems (Props/C11.v): a ',' prints 14 - col mod 14 blanks (1..14, ending on a multiple of 14); TAB(n) prints n - col blanks "
-             "or nothing. Programs of PRINT statements with every separator, TAB/SPC/POS, CLS and INPUT in between are run on model and "
-             "implementation and compared character by character with an independent terminal emulator that has its own shortest-digits "
-             "number formatter; random f32/f64 bit patterns are formatted on both sides and checked for read-back, minimal digit count "
-             "and notation.",
-        note="'Shortest decimal that reads back' is validated per value (model's exact-rational algorithm vs Rust vs a Python search), "
-             "not proved for all floats.",
-        technique="Coq model + theorems; layout emulator monitor and per-value number-format validation"),
-    "C14": dict(
-        text="Theorem that a failing RENUM returns before any line is touched (Props/C14.v); link-clean programs with every referencing "
-             "form, non-ASCII text before operands, line 0 and omitted operands are renumbered with boundary and random argument triples "
-             "on model and implementation; monitors check the numbering formula, that only line-number operands changed (token-wise), that "
-             "failure leaves the listing byte-identical, and that the renumbered program runs identically modulo reported line numbers.",
-        note="The AST-level rewrite theorem (every reference form is visited) is not yet proved.",
-        technique="Coq model + theorems; differential and relational (before/after) check"),
-    "C15": dict(
-        text="Theorem that an inserted line is found again (Props/C15.v); histories of insert / replace / bare-number delete / LIST / DELETE "
-             "in every range form over a small line universe (all range operations on a seeded store exhaustively, random longer "
-             "histories, random histories over the whole number range) run on model and implementation; a reference map predicts every "
-             "LIST output, every rejection and the listing after every step.",
-        note="The refinement theorem (sorted list = finite map) is stated for insert only so far.",
-        technique="Coq model + theorems; history-based differential check with a reference map"),
-    "C16": dict(
-        text="Theorems (Props/C16.v): ? and ' scan to the PRINT and REM tokens; the operator and GO TO / GO SUB merges hold for any amount "
-             "of blank space. Every line of generated programs is rendered in random spellings (case, ?, ', GO TO, GO SUB, dropped LET, "
-             "=< =>, blanks inside relational operators and at non-alphanumeric boundaries, keywords glued to numbers); variants must give "
-             "the same AST, the same listing modulo LET / remark marker / amount of blank space, and whole programs the same transcript.",
-        note="One known finding is listed (GO SUB glued to digits). Listing equality is taken modulo the amount of blank space, because the "
-             "listing deliberately keeps the user's blanks (see DESIGN.md).",
-        technique="Coq model + theorems; spelling-variant relational check on the implementation"),
-    "C17": dict(
-        text="Theorem that a reply without commas and quotes is one field (Props/C17.v); INPUT statements of every shape are answered with "
-             "replies from a grammar on model and implementation; an independent specification of splitting, trimming, unquoting and "
-             "numeric conversion predicts the prompt, the capitalisation flag, acceptance with the stored values, or REDO FROM START "
-             "followed by the same prompt.",
-        note="Numeric fields outside the documented grammar (inf, nan, suffix characters) are compared model-vs-implementation only.",
-        technique="Coq model + theorems; reply-grammar differential check with an input specification monitor"),
-    "C18": dict(
-        text="Theorems (Props/C18.v): a push beyond 65536 stack entries reports OUT OF MEMORY; SWAP leaves exactly two values. Every "
-             "statement kind runs 70000 times in a loop (implementation) and 2500 times (model and implementation) and must finish; "
-             "GOSUB / FN recursion, abandoned frames, 65537 variables / DATA constants / instructions must end in OUT OF MEMORY with the "
-             "session usable; zeroing variables at the pool limit must free slots.",
-        note="One known finding is listed (an oversized stored program blocks direct mode). The 70000-iteration and pool-limit runs are "
-             "implementation-only: the model's association-list store makes them too slow.",
-        technique="Coq model + theorems; long-run and limit-driving checks"),
-    "C19": dict(
-        text="Theorem that the displayed range is the parser's range shifted by the line-number prefix (Props/C19.v); programs of "
-             "sentinel-printing lines with injected dangling references in every referencing form, unmatched WHILE/WEND and token damage "
-             "behind ASCII and multi-byte text are entered through RUN, RUN n, GOTO, GOSUB, ON.., CONT on model and implementation; "
-             "nothing may be printed by the program, and the reported range must underline exactly the number / keyword in the listed line.",
-        note="The parser column invariant (sublist a b (print tokens) = print t) is not yet proved.",
-        technique="Coq model + theorems; fault-injection differential check with an underline monitor"),
-    "C20": dict(
-        text="Theorem that a line symbol records the code address at which it is pushed, whatever precedes it (Props/C20.v); generated "
-             "programs are run under REM / empty / unreachable line insertion, line splitting, other numberings (including line 0), "
-             "extra program text behind a direct statement, and direct vs one-line-program execution, on model and implementation; "
-             "transcripts must agree modulo reported line numbers.",
-        note="The relocation bisimulation is proved for a prototype VM only (DESIGN.md).",
-        technique="Coq model + theorems; layout-transformation relational check"),
+
+CLAIMED = {
+    "C01": entry(
+        "for expressions of any depth over literals, scalar variables, unary minus, NOT and every binary operator, the emitted code is the "
+        "postfix form, the VM's fetch loop runs it and leaves exactly the value (or raises exactly the error) that the reference semantics "
+        "Spec/Sem.v computes for the same variable store, and nothing else changes (Props/C01.v, Proofs/ExprCompile.v); the ON dispatch arithmetic.",
+        "the whole interpreter model (lexer, parser, codegen, linker, VM) against the crate on generated programs of the well-defined "
+        "fragment, and the crate's transcript against Spec/Sem.v (statement-by-statement, continuations and frames, no addresses), which "
+        "produces the concrete failing program.",
+        "Statements and control flow (GOTO/GOSUB/FOR/WHILE/IF, symbol resolution end to end, TRON) are NOT covered by a simulation theorem; "
+        "for them the deciding work is the differential run against Spec/Sem.v. Sem shares value-level operations with the model.",
+        "Coq compiler-correctness theorem for the expression fragment + model/implementation/reference-semantics differential check"),
+    "C02": entry(
+        "the precedence tables are the manual's 13 levels; result types of every operator (wider operand type for + - *, at least Single for /, "
+        "Integer for \\ MOD and the logical operators, 0 or -1 for relational ones); the only error of + - * on numbers is OVERFLOW between two "
+        "Integers; conversion on assignment fails only with OVERFLOW / TYPE MISMATCH / STRING TOO LONG and otherwise has the target type; "
+        "compiled expression code computes what the reference semantics prescribes (Props/C02.v, C01).",
+        "random and exhaustive (all operator pairs) expression trees rendered with the parentheses the manual's table requires must parse back "
+        "to the tree; every operator x operand-type x boundary-value combination model vs crate and against the documented result type; "
+        "typed assignment and literal typing against the manual's rules.",
+        "That the parser builds the tree the table prescribes is NOT proved (a round-trip theorem exists for a prototype grammar only); values of ^ "
+        "with a non-Integer operand are compared by type (powf/powi are oracles); numeric functions differential only.",
+        "Coq theorems on operator typing + tree-rendering spec monitor and type-matrix differential check"),
+    "C03": entry(
+        "the scanner accepts every source text: it returns tokens, never an error, never the model's Panic, never runs out of fuel (Hang) -- "
+        "including the progress lemma for number(), the loop that hung in the unrepaired crate (Props/C03.v, Proofs/LexTotal.v).",
+        "all strings over the 25-symbol lexical alphabet up to length 3 (4 thorough), token soup and mutated lines through lex/relist/ast; "
+        "sessions of arbitrary API calls; and, with the crate's debug assertions enabled, sessions that keep the terminal's calling discipline "
+        "plus replies arriving on a nearly full stack -- all under a watchdog, panics caught.",
+        "PARTIAL: totality of the parser, code generator and VM is NOT proved; their freedom from panics and hangs is established only on the "
+        "generated inputs (the model marks every panic / divergence site of the crate as Panic / Hang, so a reachable one shows as a disagreement "
+        "or a PANIC/HANG answer). Wall-clock behaviour is observed by a watchdog, not modelled.",
+        "Coq totality theorem for the scanner + exhaustive short-string and session fuzz under a watchdog (two build profiles)"),
+    "C04": entry(
+        "a Hoare logic over the VM monad shows, for every state and opcode: through execute(), numbered lines, INPUT/INKEY$ replies and interrupts "
+        "the dirty flag never falls and the stored lines never change without it; statements other than DELETE/RENUM/NEW never alter lines, flag or "
+        "code; a direct line entered with the flag up runs behind a fresh compilation of exactly the stored lines, and neither the old code nor the "
+        "value stack, user functions or CONT state can influence it (Props/C04.v, Proofs/Dirty.v).",
+        "random edit histories on model and crate; a relational monitor re-types the crate's final listing into a fresh interpreter and compares "
+        "RUN / RUN n, and checks that CONT / RETURN / NEXT / FN calls are refused after every kind of edit.",
+        "Not proved: that compiling the listing behaves like typing it into a fresh interpreter (needs compiler correctness for statements).",
+        "Coq invariant proof (Hoare logic over the VM monad) + history-based differential and relational (fresh interpreter) check"),
+    "C05": entry(
+        "the listed text of line n, entered again, is line n again (all n <= 65529, all token lists); the decimal rendering of a number reads back "
+        "as the number; a string literal's payload is copied character for character (Props/C05.v).",
+        "all strings over the lexical alphabet up to the tier's length, token-spelling pairs, constants glued to words, soup and program lines: "
+        "relist twice (fixed point), same line number, same AST for original and listed text or both rejected, payloads preserved; SAVE/LOAD "
+        "through Listing::load_str.",
+        "PARTIAL: the fixed-point and same-meaning halves (lex(print ts) = ts) are NOT proved; they are decided by the monitor on the crate. Two known "
+        "findings are listed (text glued to REM; relational-operator soup behind ignored arguments).",
+        "Coq theorems on the line-number prefix + exhaustive short-string relational check on the implementation"),
+    "C06": entry(
+        "the store is well typed initially and stays so under assignment and DEFtype; reads return the variable's own type; unassigned reads are 0 / \"\"; "
+        "read-your-write; frame (other keys untouched, i.e. no aliasing); DEFtype leaves suffixed and out-of-range names alone; array subscripts are "
+        "accepted exactly within 0..bound per dimension (bound 10 when implicit) and rejected otherwise; DIM twice is refused, ERASE allows it again; "
+        "array keys are injective and disjoint from scalar keys (Props/C06.v, Proofs/Vars.v).",
+        "random sequences of assignments, reads, DIM/ERASE, DEFtype, SWAP and CLEAR over aliasing-prone names on model and crate, every printed "
+        "value and error predicted by a typed total-map reference.",
+        "Assumption made explicit in the statements: names contain no comma. SWAP is covered at stack level (C18_swap_neutral) and by the sequences.",
+        "Coq invariant and frame theorems for the variable store + sequence-based differential check with a reference store"),
+    "C07": entry(
+        "LEN, LEFT$, RIGHT$, MID$ return exactly the documented piece counted in characters; INSTR returns one plus the least index of an occurrence or 0; "
+        "MID$ assignment keeps the length and the prefix; CHR$/ASC round trip (Props/C07.v, Proofs/Strings.v). Strings are lists of scalar values, so "
+        "no model function can split a character.",
+        "every string function model vs crate over cartesian products of boundary strings (incl. multi-byte), positions and patterns; an independent "
+        "character-level specification decides each answer.",
+        "STR$/VAL, HEX$/OCT$, comparison and the 255 limit on store are differential only. That the crate's byte-offset slicing agrees with the "
+        "character-level model is exactly what the differential check tests.",
+        "Coq theorems on the string functions + exhaustive boundary-grid differential check with a spec monitor"),
+    "C08": entry(
+        "every Integer operation (+ - * \\ MOD, ^ with non-negative Integer exponent, unary minus) returns the exact mathematical result in "
+        "-32768..32767 or OVERFLOW / DIVISION BY ZERO, for all operands (Props/C08.v, Proofs/Int16.v; lia/nia, induction for ^).",
+        "operation.rs / function.rs / val.rs in both build profiles: all 65536 values for unary operations, a 64x64 boundary grid and random pairs "
+        "for binary ones, floats around the conversion limits; exact integer arithmetic in Python as the monitor.",
+        "Float to Integer conversion is covered by the differential sweep and the monitor, not by a theorem.",
+        "Coq proof over Z (lia/nia, induction) + model/implementation differential check"),
+    "C09": entry(
+        "one READ takes the constant under the pointer and advances it by one, touching nothing else; k READs deliver the next k constants in order; "
+        "reading past the end is OUT OF DATA and changes nothing; RESTORE sets the pointer to the resolved data address, CLEAR rewinds it; a line's "
+        "symbol records the number of constants before the line; appending a fragment appends its constants (Props/C09.v).",
+        "programs with DATA lines anywhere, RESTORE / RESTORE n sequences and edit histories on model and crate, compared with Spec/Sem.v whose DATA "
+        "list is the constants in source order.",
+        "Not proved: that the data segment of a whole compiled program is the concatenation of its DATA statements in source order.",
+        "Coq theorems on the DATA pointer + model/implementation/reference-semantics differential check"),
+    "C10": entry(
+        "the error cases of a call (undefined function, wrong argument count, DEF at the prompt) and the return protocol (the body's value is kept, "
+        "everything down to the return address is dropped, control returns to the saved address, variables untouched); mangled parameter names "
+        "contain a '.' (Props/C10.v).",
+        "programs with nested calls, same-named globals, DEFtype settings, arity errors and recursion on model and crate, compared with Spec/Sem.v, "
+        "which binds parameters in a local environment typed by their own names.",
+        "PARTIAL: locality of parameters and call-time evaluation end to end are decided by the monitor, not proved.",
+        "Coq theorems on the call protocol + model/implementation/reference-semantics differential check"),
+    "C11": entry(
+        "the cursor column is the number of characters since the last newline, across items and statements; ',' prints 14 - col mod 14 blanks; TAB(n) "
+        "prints n - col blanks or nothing; PRINT moves the column by exactly what it emits; a number carries one trailing blank (Props/C11.v).",
+        "programs of PRINT statements with every separator, TAB/SPC/POS, CLS and INPUT in between on model and crate, compared with an independent "
+        "terminal emulator with its own shortest-digits formatter; random f32/f64 bit patterns formatted on both sides and checked for read-back, "
+        "minimal digit count and notation.",
+        "'Shortest decimal that reads back' is validated per value, not proved for all floats.",
+        "Coq theorems on column bookkeeping + layout emulator monitor and per-value number-format validation"),
+    "C12": entry(
+        "CLEAR resets every field a run can depend on to its start-up value and changes nothing else; NEW additionally empties the listing, clears trace "
+        "mode and forces recompilation; RUN compiles to CLEAR followed by a jump (Props/C12.v).",
+        "sessions with dirtying prefixes on model and crate; a relational monitor compares RUN after the prefix with RUN in a fresh interpreter.",
+        "RND reseeding uses OS entropy (an oracle in the model); compared programs do not call RND before seeding it. The whole-run equivalence with a "
+        "fresh interpreter is relational testing, not a bisimulation proof.",
+        "Coq proof (field-by-field reset) + history-based differential and relational check"),
+    "C13": entry(
+        "any way of cutting a run of the instruction loop into budgets gives the same state and first event as one budget of the same total, for every "
+        "program, state and cut; at the API, execute(n+m) = execute(n); execute(m) while the machine stays running; interrupt() saves exactly what CONT "
+        "restores (Props/C13.v, Proofs/Slicing.v).",
+        "the same sessions under seven quanta, interrupted after every k-th execute(1) call with optional inspection and CONT, and with STOP inserted at "
+        "statement boundaries; outputs must equal the uninterrupted run modulo the ?BREAK block and its forced line break.",
+        "PARTIAL: CONT transparency (STOP/END/interrupt then CONT reaches the state of the uninterrupted run) is decided by the monitor, not proved.",
+        "Coq slicing theorem + schedule-enumerating differential and relational check"),
+    "C14": entry(
+        "the change map is built completely before any line is touched (a failing RENUM leaves the listing as it was); lines below old-start are not in "
+        "the map; the j-th line at or above old-start maps to new-start + j*step <= 65529; the renumbered listing is rebuilt in ascending order (Props/C14.v).",
+        "link-clean programs with every referencing form, non-ASCII text before operands, line 0 and omitted operands renumbered with boundary and random "
+        "argument triples on model and crate; monitors check the numbering formula, that only line-number operands changed (token-wise), that failure "
+        "leaves the listing byte-identical, and that the renumbered program runs identically modulo reported line numbers.",
+        "PARTIAL: that the text splice rewrites exactly the line-number operands and nothing else is decided by the monitor, not proved.",
+        "Coq theorems on the change map + differential and relational (before/after) check"),
+    "C15": entry(
+        "the stored lines are an ordered finite map: a numbered line inserts or replaces and nothing else changes, a bare number deletes, DELETE a-b removes "
+        "exactly the inclusive range, iterating Listing::list_line as the runtime does yields exactly the lines of the range in ascending order; in every state "
+        "reachable through enter / execute / interrupt the lines ascend strictly; a numbered line's number is at most 65529 (Props/C15.v).",
+        "histories of insert / replace / bare-number delete / LIST / DELETE in every range form (exhaustive over a small universe, random over the whole "
+        "number range) on model and crate; a reference map predicts every LIST output, every rejection and the listing after every step.",
+        "Range-operand parsing (bare DELETE, inverted ranges, numbers above 65529 rejected) is differential only.",
+        "Coq refinement to an ordered map + reachable-state invariant + history-based differential check with a reference map"),
+    "C16": entry(
+        "? and ' scan to the PRINT and REM tokens; the operator and GO TO / GO SUB merges hold for any amount of blank space (Props/C16.v).",
+        "every line of generated programs rendered in random spellings (case, ?, ', GO TO, GO SUB, dropped LET, =< =>, blanks inside relational operators, "
+        "blanks added or removed at boundaries, keywords glued to numbers, words run together where the leftmost-reserved-word rule gives the same words "
+        "back); variants must give the same AST, the same listing modulo LET / remark marker / amount of blank space, and whole programs the same transcript.",
+        "PARTIAL: case- and spacing-independence of the scanner as a whole is decided by the monitor on the crate, not proved. One known finding is listed "
+        "(GO SUB glued to digits). Listing equality is modulo the amount of blank space because the listing deliberately keeps the user's blanks.",
+        "Coq lemmas on token aliases + spelling-variant relational check on the implementation"),
+    "C17": entry(
+        "a reply is cut exactly at the commas outside double quotes: joining the fields with commas gives the reply back, for every reply; n well-formed "
+        "fields joined by commas split into exactly those n fields; a reply without commas and quotes is one field (Props/C17.v).",
+        "INPUT statements of every shape answered with replies from a grammar on model and crate; an independent specification of splitting, trimming, "
+        "unquoting and numeric conversion predicts the prompt, the capitalisation flag, acceptance with the stored values, or REDO FROM START followed "
+        "by the same prompt.",
+        "Conversion of fields, the retry protocol and the capitalisation flag are decided by the monitor, not proved.",
+        "Coq theorems on field splitting + reply-grammar differential check with an input specification monitor"),
+    "C18": entry(
+        "in every state reachable through the public API the value stack holds at most 65535 entries and its length field is exact (65536 only at the moment "
+        "a push reports OUT OF MEMORY); the variable pool never exceeds 65536 entries, storing 0 or \"\" frees the slot; the code and DATA pools refuse the "
+        "65536th entry; SWAP leaves exactly two values (Props/C18.v, Proofs/StackBound.v).",
+        "every statement kind 70000 times in a loop (crate) and 2500 times (model and crate); GOSUB / FN recursion, abandoned frames, 65537 variables / "
+        "DATA constants / instructions must end in OUT OF MEMORY with the session usable; zeroing at the pool limit (also through converting assignments) "
+        "must free slots.",
+        "The bound is on pool entries (the crate's own limit), not on bytes of real memory. 'A completed statement leaves nothing behind' is decided by the "
+        "long runs, not proved. One known finding is listed (an oversized stored program blocks direct mode).",
+        "Coq reachable-state invariant for the stack + pool lemmas + long-run and limit-driving checks"),
+    "C19": entry(
+        "with errors recorded for the stored program every jump into program code stops the machine and reports them, leaving stack, variables and column "
+        "alone, while jumps inside the direct line are ordinary; a listed line comes with exactly the ranges recorded for that line, shifted by the width of "
+        "the line-number prefix (Props/C19.v).",
+        "programs of sentinel-printing lines with injected dangling references in every referencing form, unmatched WHILE/WEND and token damage behind ASCII "
+        "and multi-byte text, entered through RUN, RUN n, GOTO, GOSUB, ON.., CONT on model and crate; nothing may be printed by the program, direct "
+        "statements (looping ones included) must still work, and the reported range must underline exactly the number / keyword in the listed line.",
+        "PARTIAL: the parser's column tracking (that the range covers exactly the number / keyword) is decided by the monitor, not proved.",
+        "Coq theorems on the entry guard + fault-injection differential check with an underline monitor"),
+    "C20": entry(
+        "appending a fragment places its code unchanged behind the existing code; linking patches every recorded reference whose symbol is defined with "
+        "that symbol's address, touches no other instruction and changes only the address operand; a line symbol records the address at which the line "
+        "starts, whatever precedes it (Props/C20.v, Proofs/Reloc.v).",
+        "generated programs under REM / empty / unreachable line insertion, line splitting, other numberings (including from line 0 with references to the "
+        "first line), extra program text behind a direct statement, direct vs one-line-program execution, on model and crate; transcripts must agree modulo "
+        "reported line numbers.",
+        "PARTIAL: layout independence of whole programs is compiler correctness for control flow; it is decided by the relational monitor, not proved.",
+        "Coq theorems on append and link + layout-transformation relational check"),
 }
 
 PENDING_REASON = ("the model covers this property's code, but its theorem file and check module are not yet registered in this commit "
